@@ -41,6 +41,7 @@ type vresult struct {
 	closePanic string
 	closeInvoke, closeReturn int
 	closeRan   bool
+	closedInTask bool // Close ran inside a client task while other tasks' calls could still be in flight
 	deadlock   bool
 	anyErr     bool
 	manifest   []byte
@@ -205,6 +206,14 @@ func runVariant(sc *bw.Scenario, book *simkit.TapeBook, vi int, w *world, pkgAdd
 		}
 	}
 	res.adds = make([]AddRec, 0, len(va.Order))
+	remaining := make([]int, ntasks)
+	for pos := range va.Order {
+		remaining[va.Tasks[pos]]++
+	}
+	closer := 0
+	if len(va.Tasks) > 0 {
+		closer = va.Tasks[len(va.Tasks)-1]
+	}
 	tracer := r.tracer()
 	doClose := func() {
 		res.closeRan = true
@@ -234,6 +243,7 @@ func runVariant(sc *bw.Scenario, book *simkit.TapeBook, vi int, w *world, pkgAdd
 				a := sc.Adds[ai]
 				rec := AddRec{Idx: ai, Task: tk.ID}
 				tk.Yield("before-add")
+				remaining[t]--
 				rec.Invoke = log.Steps + 1
 				log.Add(tk.ID, "op-start", fmt.Sprintf("add %s %s", a.Kind, a.Addr))
 				callsBefore := len(r.calls)
@@ -284,7 +294,7 @@ func runVariant(sc *bw.Scenario, book *simkit.TapeBook, vi int, w *world, pkgAdd
 				for _, c := range r.calls[callsBefore:] {
 					if c.Task == tk.ID {
 						rec.Calls++
-						if c.Fault != "" && c.Fault != "stall" {
+						if c.Fault != "" && c.Fault != "stall" && c.Fault != "cancel-after" {
 							rec.RanFault = true
 						}
 					}
@@ -297,8 +307,20 @@ func runVariant(sc *bw.Scenario, book *simkit.TapeBook, vi int, w *world, pkgAdd
 				}
 				states[simkit.HashString(r.abstractState())] = true
 			}
-			if sc.CloseTask && ntasks == 1 {
+			remaining[t] = 0
+			if sc.CloseTask && t == closer {
+				// Close is called while other callers' last Add calls may still be in flight,
+				// but after every Add call has been invoked
+				tk.Block("wait-all-invoked", func() bool {
+					for _, n := range remaining {
+						if n > 0 {
+							return true
+						}
+					}
+					return false
+				})
 				doClose()
+				res.closedInTask = ntasks > 1
 			}
 		})
 	}
